@@ -119,8 +119,19 @@ pub fn run(sc: &Value) -> Value {
                     Some((p, k)) => (p, Some(k.parse::<usize>().unwrap())),
                     None => (spec, None),
                 };
+                // "<path>@<band>" restricts the lookup to that band (the same path may hold different content in another version)
+                let (epath, only_band) = match epath.split_once('@') {
+                    Some((p, b)) => (p, b.parse::<u64>().ok()),
+                    None => (epath, None),
+                };
                 let mut found = None;
                 for b in sc["bands"].as_array().unwrap() {
+                    if only_band.is_some() && b["band"].as_u64() != only_band {
+                        continue;
+                    }
+                    if only_band.is_none() && found.is_some() {
+                        break;
+                    }
                     for e in b["entries"].as_array().unwrap() {
                         if e["path"] == epath && e["blocks"].is_array() {
                             let lens: Vec<usize> = e["blocks"].as_array().unwrap().iter().map(|l| l.as_u64().unwrap() as usize).collect();
